@@ -53,8 +53,9 @@ func c20Scenarios(tier string) []*Scenario {
 	}
 	for n := 1; n <= maxN; n++ {
 		for k := 0; k <= n; k++ {
-			// client -> server
-			for _, kind := range []string{"cs", "bd"} {
+			// client -> server (also on a method declared server-streaming: the declared kind of a
+			// method must not change how far a client that keeps sending gets ahead)
+			for _, kind := range []string{"cs", "bd", "ss"} {
 				// receiver stalls forever (handler waits on its context): sender must end up blocked
 				add("c2s-stall", "", RPC{Kind: kind, Client: sends("S", n), Handler: cat(rep("r", k), []string{"w", "ret:ctx"})})
 				// released by the context ending
@@ -76,6 +77,14 @@ func c20Scenarios(tier string) []*Scenario {
 					add("s2c-cancel", "cancel", RPC{Kind: kind, Client: cat([]string{"S0", "C"}, rep("R", k)), Handler: cat([]string{"r"}, h)})
 				}
 			}
+		}
+	}
+	// the two directions are independent: a sender stalled in one direction (it holds whatever the
+	// library holds while a send is parked) must not hold up the other direction
+	for n := 1; n <= maxN; n++ {
+		for k := 0; k <= n; k++ {
+			add("c2s-stall", "", RPC{Kind: "bd", Client: sends("S", n), Handler: cat([]string{"go"}, rep("r", k), []string{"w", "ret:ctx"}), Handler2: []string{"s0", "s1", "s2"}})
+			add("s2c-stall", "", RPC{Kind: "bd", Client: rep("R", k), Client2: []string{"S0", "S1", "S2", "S3"}, Handler: cat([]string{"r"}, sends("s", n), []string{"w", "ret:ctx"})})
 		}
 	}
 	// single-response stream kind: the client's one receive must not drain what a misbehaving handler keeps sending
